@@ -26,7 +26,9 @@ JUNK = [{"ZERV_X": "1", "FOO": "bar"}, {"COLUMNS": "7", "LINES": "1", "TERM": "d
         {"CI": "true", "GITHUB_ACTIONS": "true", "GITHUB_HEAD_REF": "feature/ci", "GITHUB_REF_NAME": "release/9", "GITHUB_REF": "refs/heads/release/9", "GITHUB_SHA": "0" * 40},
         {"CI_COMMIT_REF_NAME": "hotfix/1", "CI_COMMIT_BRANCH": "hotfix/1", "CI_COMMIT_SHA": "f" * 40, "CI_COMMIT_TAG": "v9.9.9", "GITLAB_CI": "true"},
         {"BRANCH_NAME": "release/2", "GIT_BRANCH": "origin/develop", "BUILD_NUMBER": "77", "JENKINS_URL": "http://x", "TRAVIS_BRANCH": "dev", "CIRCLE_BRANCH": "dev"},
-        {"ZERV_BRANCH": "x", "ZERV_TAG": "v8.8.8", "VERSION": "7.7.7", "SETUPTOOLS_SCM_PRETEND_VERSION": "6.6.6"}]
+        {"ZERV_BRANCH": "x", "ZERV_TAG": "v8.8.8", "VERSION": "7.7.7", "SETUPTOOLS_SCM_PRETEND_VERSION": "6.6.6"},
+        {"LANGUAGE": "de", "LANG": "C.UTF-8"}, {"LANGUAGE": "fr:es", "LANG": "C.UTF-8"}, {"LANGUAGE": "zh_CN", "LC_MESSAGES": "zh_CN.UTF-8"},
+        {"LANGUAGE": "ja", "LANG": "ja_JP.UTF-8", "LC_ALL": ""}]
 TS_TEMPLATES = ["{{ format_timestamp(value=bumped_timestamp) }}", "{{ format_timestamp(value=bumped_timestamp, format='compact_datetime') }}",
                 "{{ format_timestamp(value=bumped_timestamp, format='%Y/%m/%d %H:%M:%S') }}-{{ semver }}", "{{ bumped_timestamp }}:{{ hash(value=bumped_branch) }}",
                 "{{ hash_int(value=bumped_branch, length=9) }}.{{ semver }}"]
@@ -199,7 +201,8 @@ def work_repo(bins, seed, idx, tmp):
                 ("other HOME", cmd + ["-C", path], "/", {"HOME": os.path.join(top, "otherhome")}),
                 ("TZ+locale", cmd + ["-C", path], "/tmp", {"TZ": rng.choice(TZS[1:]), "LANG": rng.choice(LOCALES[2:5]), "LC_ALL": "tr_TR.UTF-8"}),
                 ("junk env", cmd + ["-C", path], "/", dict(rng.choice(JUNK))),
-                ("ci env", cmd + ["-C", path], "/", dict(rng.choice(JUNK[-4:]))),
+                ("ci env", cmd + ["-C", path], "/", dict(rng.choice(JUNK[-8:-4]))),
+                ("message language", cmd + ["-C", path], "/", dict(rng.choice(JUNK[-4:]))),
                 ("repeat", cmd + ["-C", path], "/", {}),
                 ("repeat 2", cmd + ["-C", path], "/", {}),
                 ("repeat 3", cmd + ["-C", path], "/", {}),
@@ -218,10 +221,24 @@ def work_repo(bins, seed, idx, tmp):
                     base = (label, r)
                     continue
                 st["repo_variants_compared"] += 1
+                if "LANGUAGE" in extra and base[1]["exit"] != 0 and r["exit"] == base[1]["exit"] and not r["out"] and not base[1]["out"]:
+                    continue      # failures may word their diagnostics differently; only (exit, stdout) is compared
                 if (r["exit"], r["out"]) != (base[1]["exit"], base[1]["out"]):
                     bad.append(("environment-changes-output", "git source, `%s`: [%s] gives (%s, %r %s) but [%s] gives (%s, %r)" % (
                         " ".join(cmd), label, r["exit"], r["out"][:140], r["err"][:100], base[0], base[1]["exit"], base[1]["out"][:140]),
                         dict(kind="repo", seed=seed, idx=idx, cmd=cmd, label=label, ops=list(repo.ops))))
+        if kind == "clean":
+            for cmd in (["version", "--output-format", "zerv"], ["version", "--schema", "calver"], ["version", "--output-template", "{{ bumped_timestamp }}/{{ last_timestamp }}/{{ semver }}"]):
+                outs = []
+                for now in (T1, T2, 1_300_000_000, 4_000_000_000):
+                    r = core.run_zerv(bins, cmd + ["-C", path], env=core.base_env(bins, home=top, now=now))
+                    st["repo_runs"] += 1
+                    st["repo_clock_variants"] = st.get("repo_clock_variants", 0) + 1
+                    if not r["timeout"]:
+                        outs.append((now, r["exit"], r["out"]))
+                if len(set((e, o) for _, e, o in outs)) > 1:
+                    bad.append(("wall-clock-leaks-into-output", "clean checkout, `%s`: output depends on the wall clock: %r" % (" ".join(cmd), [(n, o[:80]) for n, _, o in outs][:3]),
+                                dict(kind="repo", seed=seed, idx=idx, cmd=cmd, label="clock", ops=list(repo.ops))))
     except gitmodel.GitError as e:
         raise core.Inconclusive("repo generator: %s" % e)
     finally:
